@@ -281,11 +281,11 @@ def check_line_mapping_rule(fx, rep, rule):
     cands = []
     in_closure = False
     for p, b in fx.bodies.items():
-        if b["krate"] != "proguard" or b["kind"] not in ("Fn", "Closure") or "::mapping::" not in p:
+        if b["krate"] != "proguard" or b["kind"] not in ("Fn", "AssocFn", "Closure") or "mapping::" not in p or b.get("exp"):
             continue
         for n in F.walk(b["body"]):
             if n.get("k") == "Adt" and n["adt"].endswith("mapping::LineMapping"):
-                if b["kind"] == "Fn":
+                if b["kind"] in ("Fn", "AssocFn"):
                     cands.append((p, b))
                 else:
                     in_closure = True
